@@ -168,7 +168,8 @@ func workerMain(args []string) {
 		}
 		runSeed := mix64(base, uint64(k))
 		sc := genFor(*prop, runSeed, *tier)
-		if sc == nil {
+		if sc == nil || (sc.Prop != "C13" && sc.nops() == 0) {
+			wo.Probes["empty_scenario_skipped"]++
 			continue
 		}
 		rr := execFor(sc, runOpts{})
